@@ -51,6 +51,7 @@ CATALOG = {
     "rpD":   retry(3, dly=2, maxd=3),                    # max duration 3 units with a 2 unit delay
     "rpUD":  retry(-1, dly=1, maxd=2),                   # unlimited retries bounded only by the max duration
     "rpDL":  retry(2, dly=3, maxd=4, rlf=True),
+    "rpDS":  retry(4, dly=3, maxd=2),                    # a max duration SHORTER than the delay (the delay is clipped to what is left)
     "cbA":   cb("cbA", BR1),
     "cbB":   cb("cbB", BR2),
     "cbC":   cb("cbC", BR23, h=[cE("E1")]),
